@@ -401,7 +401,16 @@ class Interp:
         elif isinstance(fn, ast.Name) and fn.id == 'int' and len(e.args) == 1:
             return self.ev(e.args[0])
         else:
-            raise Unknown(f'call `{norm(fn)[:40]}`')
+            callee = None
+            if isinstance(fn, ast.Name):
+                r = self.prog.resolve(self.f.mod, fn)
+                if r and r[0] == 'func' and r[1].mod is self.f.mod:
+                    callee = r[1]
+            elif isinstance(fn, ast.Attribute) and isinstance(fn.value, ast.Name) and fn.value.id == 'self' and self.f.cls is not None:
+                callee = self.prog.resolve_method(self.f.cls, fn.attr)
+            if callee is None or getattr(self, '_depth', 0) > 3:
+                raise Unknown(f'call `{norm(fn)[:40]}`')
+            return self.invoke(callee, e)
         if not isinstance(v, Arr):
             raise Unknown(f'{np} of a non array')
         n = len(v.labels)
@@ -458,6 +467,39 @@ class Interp:
                     return Arr([('K' if x == 'k' else x) for x in tl], 'derived', v.grouped)
             raise Unknown(f'reshape of {v} to ({", ".join(pshow(t) for t in tgt)})')
         raise Unknown(np)
+
+    def invoke(self, callee, e):
+        """interpret a helper of the same module / class with its parameters bound to the evaluated arguments"""
+        params = [p for p in callee.params]
+        static = any(norm(d) == 'staticmethod' for d in callee.node.decorator_list)
+        if callee.cls is not None and not static and params and params[0] == 'self':
+            params = params[1:]
+        new_env = {}
+        for i, a in enumerate(e.args):
+            if i >= len(params):
+                raise Unknown('helper arguments')
+            new_env[params[i]] = self.ev(a)
+        for k in e.keywords:
+            if k.arg is None:
+                raise Unknown('helper arguments')
+            new_env[k.arg] = self.ev(k.value)
+        defaults = callee.node.args.defaults
+        dparams = params[len(params) - len(defaults):] if defaults else []
+        for p_, d in zip(dparams, defaults):
+            if p_ not in new_env:
+                new_env[p_] = self.ev(d)
+        if set(params) - set(new_env):
+            raise Unknown(f'helper {callee.name}: unbound parameters')
+        saved = (self.env, self.ret, self.loopvar, self.f, getattr(self, '_depth', 0))
+        self.env, self.ret, self.loopvar, self.f, self._depth = new_env, None, None, callee, saved[4] + 1
+        try:
+            self.block(callee.node.body)
+            r = self.ret
+        finally:
+            self.env, self.ret, self.loopvar, self.f, self._depth = saved
+        if r is None:
+            raise Unknown(f'helper {callee.name} returns nothing')
+        return r
 
     def env_alias(self, src, view):
         """a view of a freshly allocated array: stores through the view fill the allocation (grouped flag is shared)"""
